@@ -408,10 +408,10 @@ example : psdCompleteWritten exPattern 3 = .ok [(2, 0), (0, 2)] := by rfl
 
 example : psdCompleteChanged exPattern 3 = .ok [2, 6] := by rfl
 
-example : ∃ v x, v ∈ exTree.snodeAt 0 ∧ exTree.snodeOffset 0 ≤ x ∧ x ∉ exTree.cliqueAt 0 ∧
-    ∀ k, k < exTree.nCliques → ¬ (x ∈ exTree.cliqueAt k ∧ v ∈ exTree.cliqueAt k) :=
+example : ∃ v x, v ∈ exTreeV.snodeAt 0 ∧ exTreeV.snodeOffset 0 ≤ x ∧ x ∉ exTreeV.cliqueAt 0 ∧
+    ∀ k, k < exTreeV.nCliques → ¬ (x ∈ exTreeV.cliqueAt k ∧ v ∈ exTreeV.cliqueAt k) :=
   ⟨0, 2, by decide, by decide, by decide,
-    exTree_valid.no_common_clique (j := 0) (by decide) (by decide) (by decide) (by decide)⟩
+    exTreeV_valid.no_common_clique (j := 0) (by decide) (by decide) (by decide) (by decide)⟩
 
 /-! ### every position outside the pattern is written -/
 
